@@ -16,7 +16,7 @@ import vbuild
 
 LEVEL = "exploration"
 RULE = ("one case = one trial: fresh shared objects (random ellipsoid / projection parameters / synthetic gravity, magnetic, geoid files), "
-        "T in {2,4,8,16} threads released from a barrier, each executing 200-2000 const operations drawn from a registry of ~275 operations "
+        "T in {2,4,8,16} threads released from a barrier, each executing 200-2000 const operations drawn from a registry of 426 operations (every class also through its alternative public constructors / factories / pre-barrier mutators: AuxLatitude::axes, sin/cos conic constructors, SetScale, Reset, 4-argument EllipticFunction, NormalGravity from J2, (nmx,mmx) harmonic constructors, truncated gravity/magnetic models, lines from constructor/InverseLine/DirectLine) "
         "on the SAME objects with per-thread deterministic inputs; section 'focus' = every registry class hammered once per tier-defined "
         "thread counts; first-touch trials = one new process per (singleton/static set, T, order); evaluation = one concurrently executed "
         "(operation, inputs) re-executed alone on a second fresh object and compared bit-for-bit; distinct = distinct (object parameters, operation, inputs)")
@@ -461,6 +461,6 @@ def extra(res, tier, seed, workdir):
 
 MANIFEST = dict(
     technique="ThreadSanitizer build of concurrent-trial harness + bit-exact determinism monitor (concurrent result vs. same call alone on a fresh object); one process per first-touch trial; helgrind as second detector (thorough); gcov-measured 'not driven' list",
-    text="Fresh shared objects of every class in the property (all solver/projection/auxiliary-latitude/harmonic/gravity/magnetic/thread-safe-geoid classes and the static UTMUPS/MGRS/DMS/Geohash/GARS/Georef/OSGB functions) are hammered by 2-16 threads with ~275 registered const operations under ThreadSanitizer; the built-in singletons are first-touched concurrently in fresh processes; every concurrently obtained result is compared bit-for-bit with the same call executed alone. Held = no data race report with a GeographicLib frame and no mismatch on the schedules executed.",
+    text="Fresh shared objects of every class in the property (all solver/projection/auxiliary-latitude/harmonic/gravity/magnetic/thread-safe-geoid classes and the static UTMUPS/MGRS/DMS/Geohash/GARS/Georef/OSGB functions) are hammered by 2-16 threads with 426 registered const operations (each class through every public constructor / factory whose code path differs) under ThreadSanitizer; the built-in singletons are first-touched concurrently in fresh processes; every concurrently obtained result is compared bit-for-bit with the same call executed alone. Held = no data race report with a GeographicLib frame and no mismatch on the schedules executed.",
     note="Schedules are sampled, not enumerated; TSan sees only executed access pairs (the evidence lists members never driven and per-operation overlap counts); the five documented Intersect counters are excluded by address annotation; libstdc++ internals are not instrumented.",
     design_ref="DESIGN.md#c14")
